@@ -185,6 +185,10 @@ impl<'a> Engine<'a> {
                     rep.violation("C02", panic_key(&p, &self.number.to_string()), format!("msg {}: decoder panicked at {}: {}", self.number, p.location, p.message), t as u64,
                         json!({"kind":"frame_decode","frame":hex(&self.frame),"desc":desc(),"trace_tail": trace.iter().rev().take(6).collect::<Vec<_>>()}));
                 }
+                if self.prop == "C14" && t >= 2 {
+                    rep.violation("C14", format!("classify:{}:panic:{}", self.number, p.location), format!("number {} ({}): decoding panics instead of classifying the frame: {}", self.number, if self.supported { "a message feature" } else { "not a feature" }, p.message), t as u64,
+                        json!({"kind":"frame_decode","frame":hex(&self.frame),"desc":desc()}));
+                }
                 Cls::Panic
             }
         };
